@@ -2,6 +2,7 @@ package props
 
 import (
 	"fmt"
+	"math/bits"
 	"os"
 	"sort"
 	"strings"
@@ -864,7 +865,29 @@ func genVals(t *rapid.T, n int, enc string, forceRuns bool) ([]Hex, string) {
 			vals[i] = payload(base)
 		}
 	}
+	capValueBytes(vals)
 	return vals, mode
+}
+
+// capValueBytes keeps the total size of one generated value list within a budget
+// (long String16 values repeated over a run of many keys add up to gigabytes; the
+// 32-bit pass has an address space of 4 GB for everything). Values longer than 512
+// bytes are cut to their tail from the point where the budget is spent: equal
+// values stay equal, different ones stay different (the tail carries the id), so
+// the run structure of the list is unchanged.
+func capValueBytes(vals []Hex) {
+	budget := 192 << 20
+	if bits.UintSize == 32 {
+		budget = 48 << 20
+	}
+	for i, v := range vals {
+		if len(v) <= 512 {
+			continue
+		}
+		if budget -= len(v); budget < 0 {
+			vals[i] = v[len(v)-24:]
+		}
+	}
 }
 
 // genBranchVals: values that follow the top-level branch structure of the key
